@@ -109,3 +109,19 @@ pub fn run_rng(seed: u64, salt: u64, run: u64) -> rand::rngs::SmallRng {
     z ^= z >> 31;
     rand::rngs::SmallRng::seed_from_u64(z)
 }
+
+/// Degenerate random streams (all bits 0 / all bits 1): "for all random streams" includes them.
+pub struct ConstRng(pub u64);
+impl rand::RngCore for ConstRng {
+    fn next_u32(&mut self) -> u32 {
+        self.0 as u32
+    }
+    fn next_u64(&mut self) -> u64 {
+        self.0
+    }
+    fn fill_bytes(&mut self, dst: &mut [u8]) {
+        for b in dst {
+            *b = self.0 as u8;
+        }
+    }
+}
